@@ -183,10 +183,13 @@ ContentAt(i, G) ==
           ELSE below
 
 Order == SortAsc(AllKeys)          \* constant: evaluated once by TLC
-RangeItems(view, st, en, asc) ==
+RangeItemsV(view, st, en, asc) ==
   LET sk == SelectSeq(Order, LAMBDA k : k \in DOMAIN view /\ view[k] # None /\ InDomain(k, st, en))
       sq == IF asc THEN sk ELSE Rev(sk)
   IN [j \in 1..Len(sq) |-> <<sq[j], view[sq[j]][1]>>]
+\* TLC passes operator arguments unevaluated and (in primed / action-property context) re-evaluates them at
+\* every use; binding the view through a set comprehension forces ONE evaluation of the whole map
+RangeItems(view, st, en, asc) == CHOOSE r \in {RangeItemsV(v, st, en, asc) : v \in {view}} : TRUE
 
 \* cachekv.Store.Write: dirty entries in ascending key order into the layer below, then clean
 RECURSIVE FlushKeys(_, _, _)
@@ -400,14 +403,18 @@ PrefixAbove(i) == Concat(Rev(SubSeq(PrefixesOf(stack), 1, i - 1)))      \* what 
 HasL(s, t) == \E i \in 1..Len(s) : s[i].t = t
 CacheKey(k) == PrefixAbove(LayerPos("cache")) \o k
 \* what the caller must see: exactly the base keys that start with the prefix, stripped, overlaid by the cache
-TopViewOf(b, o) == [k \in AllKeys |->
-              IF HasLayer("cache") /\ CacheKey(k) \in AllKeys /\ o[CacheKey(k)].d THEN o[CacheKey(k)].v
-              ELSE IF (P \o k) \in U THEN b[P \o k] ELSE None]
+TopViewP(b, o, hc, pa, pp) == [k \in AllKeys |->
+              IF hc /\ (pa \o k) \in AllKeys /\ o[pa \o k].d THEN o[pa \o k].v
+              ELSE IF (pp \o k) \in U THEN b[pp \o k] ELSE None]
+TopViewOf(b, o) ==     \* (prefixes bound once through a comprehension, see RangeItems)
+  CHOOSE r \in {TopViewP(b, o, hc, pa, pp) : hc \in {HasLayer("cache")},
+                                             pa \in {IF HasLayer("cache") THEN PrefixAbove(LayerPos("cache")) ELSE <<>>},
+                                             pp \in {P}} : TRUE
 TopView == TopViewOf(base, ov)
 
 \* prefix isolation: nothing outside the prefix is ever written or shown; reads and iterations show TopView
 Inv_PrefixIsolation ==
-  /\ \A k \in U : ~Inside(k) => base[k] = Some(DecoyVal)
+  /\ \A pp \in {P} : \A k \in U : ~HasPrefix(k, pp) => base[k] = Some(DecoyVal)
   /\ (act.op = "Get" /\ res.pan = "") => res.r = TopView[act.k]
   /\ (act.op = "Has" /\ res.pan = "") => res.r = (TopView[act.k] # None)
   /\ (act.op = "IterAll" /\ res.pan = "") => res.r = RangeItems(TopView, act.st, act.en, act.asc)
@@ -503,6 +510,7 @@ MetersSmall == {NoMeter, [kind |-> "basic", lim |-> 3005, room |-> -1], [kind |-
                 [kind |-> "basic", lim |-> 2000, room |-> 2500]}
 UK == {<<>>, <<0>>, <<255>>}
 Bnd == {<<>>, <<0>>, <<0, 0>>, <<255>>, <<255, 255>>}
+Bnd4 == {<<>>, <<0>>, <<255>>, <<255, 255>>}
 BndSmall == {<<0>>, <<255>>}
 V2 == {<<>>, <<98, 98>>}
 InitsAll == SUBSET UK
